@@ -142,7 +142,25 @@ func c09Oracle(c c09Case) error {
 	opts, _ := variantOpts(c.X)
 	ref := scanWith(c.X, nil, opts)
 	got := scanWith(c.X, &c.S, opts)
-	return sameOutcome(ref, got)
+	if err := sameOutcome(ref, got); err != nil {
+		return err
+	}
+	// The same for a stream that ends in a reader failure: whether the failure comes with the
+	// last data or on a call of its own, and in which pieces the data came, changes nothing.
+	fail := func(withData bool, chunk int) outcome {
+		var w bytes.Buffer
+		r := &cutReader{data: c.X, c: len(c.X), err: errInjected, withData: withData, chunk: chunk}
+		snap, suffix, err := stack.ScanSnapshot(r, &w, opts)
+		return outcome{snap, w.Bytes(), err, append(append([]byte{}, suffix...), c.X[r.pos:]...)}
+	}
+	chunk := 0
+	if len(c.S.Chunks) > 0 {
+		chunk = c.S.Chunks[0]
+	}
+	if err := sameOutcome(fail(false, 0), fail(c.S.EOFWithData, chunk)); err != nil {
+		return fmt.Errorf("stream ending in a reader failure (with the last data: %v, chunk %d): %v", c.S.EOFWithData, chunk, err)
+	}
+	return nil
 }
 
 // c09Stream: ground truth under a delivery schedule, over the whole resume history.
